@@ -2,7 +2,7 @@
    interpretation, concrete environments satisfying the hypotheses of each theorem, and concrete runs
    of the executable models. *)
 From Coq Require Import QArith List Bool PArith Arith.
-From PV Require Import Base.PyData Base.Expr Base.Interp Base.Stmts C09.Model C09.Proofs C09.ProofsExec C09.ProofsExt.
+From PV Require Import Base.PyData Base.Expr Base.Interp Base.Stmts C09.Model C09.Proofs C09.ProofsExec C09.ProofsExt C09.ProofsExt2.
 Import ListNotations.
 Local Open Scope Q_scope.
 
@@ -235,4 +235,28 @@ Example update_numerators_example :
                       {| tr_numer := NInt 5; tr_denom := Sym s_mdt |}] [(xK12, (NInt 5, Sym s_mdt))]
   = ([{| tr_numer := NInt 3; tr_denom := Sym s_mdt |}; {| tr_numer := NSym xK12; tr_denom := Num 1 |};
       {| tr_numer := NInt 3; tr_denom := Sym s_mdt |}], [(xK12, (NInt 3, Sym s_mdt))]).
+Proof. vm_compute. reflexivity. Qed.
+
+(* ---- error-model setters at program level: hypotheses of error_model_program_sound(_zero_protection) ---- *)
+Definition xEPSP : id := 241%positive. Definition xIPA : id := 242%positive.
+Example error_program_hyps :
+  single_assignment ex_blq_prog xY 1 (Add (Sym xF) (Mul (Sym xF) (Sym xEPS))) /\
+  find_first_from (mentions_stmt xIPA)
+    (firstn 1 ex_blq_prog ++ Assign xY (prop_y_expr doc_templates DTId xEPSP xIPA
+                                         (zero_eps [xEPS] (Add (Sym xF) (Mul (Sym xF) (Sym xEPS))))) :: skipn 2 ex_blq_prog) 0
+  = Some 1%nat /\
+  (* F = T; Y = F + F*EPS; proportional with zero protection, T = 4, new epsilon = 3: Y = 4 + 4*3 *)
+  match set_proportional doc_templates DTId true xY xEPSP xIPA [xEPS] ex_blq_prog with
+  | Some l' => length l' = 3%nat /\ run [(xT, 4); (xEPS, 7); (xEPSP, 3)] l' xY = Some (16 # 1)
+  | None => False end.
+Proof.
+  split; [|split; [vm_compute; reflexivity | vm_compute; split; reflexivity]].
+  repeat split; cbn; intuition discriminate.
+Qed.
+
+(* the IOV distributions: two etas, two levels, joint: two distributions with the same symmetric matrix *)
+Example iov_dists_example :
+  iov_dists (fun i k => Pos.of_nat (300 + 10 * i + k)) (fun i j => Pos.of_nat (400 + 10 * i + j)) [[1; 2]%nat] 2 =
+  [{| rd_names := [311; 321]%positive; rd_sigma := [[411; 412]; [412; 422]]%positive |};
+   {| rd_names := [312; 322]%positive; rd_sigma := [[411; 412]; [412; 422]]%positive |}].
 Proof. vm_compute. reflexivity. Qed.
